@@ -835,6 +835,9 @@ func (b *builder) expr(e ast.Expr, st *state) sym.Expr {
 		}
 	case *ast.CallExpr:
 		if tv, ok := b.info.Types[x.Fun]; ok && tv.IsType() && len(x.Args) == 1 {
+			if Truncates(tv.Type, b.info.TypeOf(x.Args[0])) {
+				return sym.F("trunc", b.expr(x.Args[0], st))
+			}
 			return b.expr(x.Args[0], st) // numeric conversion
 		}
 		name := calleeText(x.Fun)
@@ -1032,4 +1035,23 @@ func (m *Machine) Select(env map[string]sym.Expr, oracle Oracle) ([]*Path, bool)
 		}
 	}
 	return out, true
+}
+
+// Truncates: a conversion to an integer type of a value that may be fractional (a float or a
+// generic number) is not the identity.
+func Truncates(to, from types.Type) bool {
+	if to == nil || from == nil {
+		return false
+	}
+	bt, ok := to.Underlying().(*types.Basic)
+	if !ok || bt.Info()&types.IsInteger == 0 {
+		return false
+	}
+	if _, isTP := from.(*types.TypeParam); isTP {
+		return true
+	}
+	if fb, ok := from.Underlying().(*types.Basic); ok && fb.Info()&types.IsFloat != 0 {
+		return true
+	}
+	return false
 }
